@@ -2,6 +2,8 @@ package main
 
 import (
 	"crypto/x509"
+	"crypto/x509/pkix"
+	"encoding/asn1"
 	"fmt"
 	"math/big"
 	"time"
@@ -100,6 +102,80 @@ func c11Numberless(r *Run, focus string) {
 		}
 		if f2 != "accept" && focus == "C11" {
 			r.Violate("C11 unlisted-rejected shape="+c.Shape, fmt.Sprintf("%+v: a certificate no list names is %s", c, f2), c)
+		}
+	})
+}
+
+// c11Confusables: issuer names and serials chosen so that sloppy key construction confuses them: names that differ by
+// trailing digits combined with serials split differently ("…CA 1" + 23 vs "…CA 12" + 3), a serial and its negative, a
+// serial and the same digits under a name ending in the separator character. Only the listed (issuer, serial) pair may be
+// reported revoked.
+func c11Confusables(r *Run) {
+	origin := NewOrigin()
+	defer origin.Close()
+	type pair struct {
+		cnA    string
+		listed int64
+		cnB    string
+		probe  int64
+	}
+	pairs := []pair{
+		{"C11 Demo CA 1", 23, "C11 Demo CA 12", 3},
+		{"C11 Demo CA 12", 3, "C11 Demo CA 1", 23},
+		{"C11 Demo CA 1", 234, "C11 Demo CA 12", 34},
+		{"C11 Demo CA_", 7, "C11 Demo CA", 7},
+		{"C11 Demo CA", 17, "C11 Demo CA_1", 7},
+		{"C11 Demo CA ", 5, "C11 Demo CA", 5},
+		{"C11 Demo CA 0", 1, "C11 Demo CA ", 1},
+	}
+	var jobs []struct {
+		p       pair
+		storage string
+	}
+	for _, p := range pairs {
+		for _, st := range []string{"memory", "disk"} {
+			jobs = append(jobs, struct {
+				p       pair
+				storage string
+			}{p, st})
+		}
+	}
+	parallel(len(jobs), 8, func(i int) {
+		j := jobs[i]
+		mkCA := func(cn string) *CA {
+			// the name is exactly one RDN (CN): the store's issuer string is "CN=<cn>"
+			raw := mustMarshal(pkix.RDNSequence{{pkix.AttributeTypeAndValue{Type: asn1.ObjectIdentifier{2, 5, 4, 3}, Value: cn}}})
+			return NewCA(CAOpts{EC: true, RawSubject: raw})
+		}
+		caA, caB := mkCA(j.p.cnA), mkCA(j.p.cnB)
+		dir := scratchDir("c11c")
+		fa, fb := writeFile(dir, "a.pem", certPEM(caA.Cert)), writeFile(dir, "b.pem", certPEM(caB.Cert))
+		pa, pb := fmt.Sprintf("/c11c/%d/a.crl", i), fmt.Sprintf("/c11c/%d/b.crl", i)
+		origin.SetBytes(pa, caA.MakeCRL(CRLOpts{Serials: []*big.Int{big.NewInt(j.p.listed)}, Number: 1}))
+		origin.SetBytes(pb, caB.MakeCRL(CRLOpts{Serials: []*big.Int{big.NewInt(990001)}, Number: 1}))
+		v, err := Provision(VCfg{Mode: "crl_only", WorkDir: scratchDir("c11cw"), Storage: j.storage, SigMode: "verify", TrustedSigners: []string{fa, fb},
+			CRLUrls: []string{origin.URL(pa), origin.URL(pb)}, UpdateInterval: "10h"})
+		if err != nil {
+			r.Violate("C11 provision-failed", fmt.Sprintf("confusables %+v: %v", j, err), nil)
+			return
+		}
+		defer v.Close()
+		listed := caA.IssueLeaf(LeafOpts{Serial: big.NewInt(j.p.listed)})
+		probe := caB.IssueLeaf(LeafOpts{Serial: big.NewInt(j.p.probe)})
+		sameSerialOther := caB.IssueLeaf(LeafOpts{Serial: big.NewInt(j.p.listed)})
+		vl, _ := v.Verify([][]*x509.Certificate{{listed.Cert, caA.Cert}})
+		vp, _ := v.Verify([][]*x509.Certificate{{probe.Cert, caB.Cert}})
+		vs, _ := v.Verify([][]*x509.Certificate{{sameSerialOther.Cert, caB.Cert}})
+		r.Eval(fmt.Sprintf("confusable/%d", i), true)
+		r.Count("confusable:" + vl + "/" + vp + "/" + vs)
+		if vl != "reject" {
+			r.Violate("C11 confusables-listed-accepted", fmt.Sprintf("%q serial %d is listed, verdict %s", j.p.cnA, j.p.listed, vl), j.p)
+		}
+		if vp != "accept" {
+			r.Violate("C11 other-issuer-entry-revokes backend="+j.storage, fmt.Sprintf("only (%q, %d) is listed; the certificate (%q, %d) of another issuer is %s", j.p.cnA, j.p.listed, j.p.cnB, j.p.probe, vp), j.p)
+		}
+		if vs != "accept" {
+			r.Violate("C11 other-issuer-entry-revokes backend="+j.storage, fmt.Sprintf("only (%q, %d) is listed; the certificate with the same serial under %q is %s", j.p.cnA, j.p.listed, j.p.cnB, vs), j.p)
 		}
 	})
 }
